@@ -2,11 +2,181 @@ import Pycoin.Model.Tx
 import Pycoin.Model.Spendable
 import Pycoin.Spec.Wire
 import Pycoin.Proofs.Prefix
+import Pycoin.Proofs.TxWire
+import Pycoin.Proofs.TxParse
+/-!
+C07 — Transactions round-trip through the wire format and have stable ids.
+Property theorems over `Model/Tx.lean` / `Model/Spendable.lean`, with `Spec/Wire.lean` as the wire format.
+`Tx.WF` = every field in its wire range (Proofs/TxWire.lean).
+-/
 namespace Pycoin
 open Pycoin.Wire
 
-/-- compact-size integers parse back, whatever follows -/
-theorem C07_compact_size_rt (n : Nat) (b rest : Bytes) (h : streamSatoshiInt n = .ok b) :
-    parseSatoshiInt none (b ++ rest) = .ok (n, rest) := satoshiInt_law n b rest trivial h
+/-! ## serialisation equals the wire format -/
+
+theorem hasWitnessData_eq (tx : Tx) : tx.hasWitnessData = Spec.Wire.hasWitness tx := by
+  unfold Tx.hasWitnessData Spec.Wire.hasWitness
+  congr 1
+  funext t
+  cases t.witness <;> simp
+
+theorem streamStruct_L_eq (v : Int) (h : U32 v) :
+    streamStruct tbl ['L'] [.int v] = .ok (Spec.Wire.le 4 v.toNat) := by
+  simp [streamStruct, tbl_L, streamLetter, packLE4_eq v h]
+
+theorem streamStruct_I_eq (n : Nat) (h : n < 2 ^ 64) :
+    streamStruct tbl ['I'] [.int n] = .ok (Spec.Wire.compactSize n) := by
+  have := streamSatoshiInt_eq n h
+  simp only [streamStruct, tbl_I, streamLetter, this, List.append_nil]
+
+/-- `Tx.stream(include_witness_data=iwd)` is the BIP144 form when witness data is included and present, the legacy
+form otherwise -/
+theorem stream_eq_spec (tx : Tx) (hwf : tx.WF) (iwd : Bool) :
+    tx.stream false iwd =
+      .ok (if (iwd && Spec.Wire.hasWitness tx) = true then Spec.Wire.bip144 tx else Spec.Wire.legacy tx) := by
+  have hins := streamList_eq (fun t : TxIn => t.stream false) Spec.Wire.txin tx.ins
+    (fun t ht => TxIn.stream_eq t (hwf.ins t ht))
+  have houts := streamList_eq TxOut.stream Spec.Wire.txout tx.outs (fun t ht => TxOut.stream_eq t (hwf.outs t ht))
+  have hwit := streamList_eq (fun t : TxIn => Tx.streamWitness t.witness) (fun t => Spec.Wire.witness t.witness) tx.ins
+    (fun t ht => streamWitness_eq t.witness (hwf.ins t ht).witnessCount (hwf.ins t ht).witnessItems)
+  unfold Tx.stream
+  rw [hasWitnessData_eq]
+  simp only [Gen.Formats.tx_stream_version, Gen.Formats.tx_stream_lenTxsIn, Gen.Formats.tx_stream_lenTxsOut,
+    Gen.Formats.tx_stream_lockTime, streamStruct_L_eq _ hwf.version, streamStruct_L_eq _ hwf.lockTime,
+    streamStruct_I_eq _ hwf.inCount, streamStruct_I_eq _ hwf.outCount, hins, houts, bind, Except.bind, pure, Except.pure]
+  by_cases hw : (iwd && Spec.Wire.hasWitness tx) = true
+  · simp only [hw, if_true, hwit, Spec.Wire.bip144, List.append_assoc]
+  · simp only [hw, if_false, Spec.Wire.legacy, List.append_assoc, List.nil_append, Bool.false_eq_true]
+
+/-- C07.ser_is_wire: the bytes equal the standard wire format — BIP144 extended form when some witness is
+non-empty, legacy form otherwise -/
+theorem C07_ser_is_wire (tx : Tx) (hwf : tx.WF) : tx.stream = .ok (Spec.Wire.ser tx) := by
+  rw [stream_eq_spec tx hwf true]
+  simp [Spec.Wire.ser]
+
+theorem asBin_eq_stream (tx : Tx) : tx.asBin = tx.stream := by
+  unfold Tx.asBin
+  cases tx.stream <;> rfl
+
+/-! ## round trip -/
+
+theorem Tx.WF.parseable {tx : Tx} (hwf : tx.WF) :
+    (∀ t ∈ tx.ins, t.prevHash.length = 32 ∧ LenOk t.script ∧ ∀ w ∈ t.witness, LenOk w) ∧
+      ∀ o ∈ tx.outs, LenOk o.script :=
+  ⟨fun t ht => ⟨(hwf.ins t ht).hash, (hwf.ins t ht).script, (hwf.ins t ht).witnessItems⟩,
+   fun o ho => (hwf.outs o ho).script⟩
+
+theorem parse_cases (c : Coin) : Tx.parse c = Tx.parseLtc ∨ Tx.parse c = Tx.parseBtc true := by
+  cases c
+  · right; rfl
+  · left; rfl
+  · right; rfl
+  · right; rfl
+  · right; rfl
+
+/-- C07.tx_parse_ser: for every transaction with at least one input and fields in range, of every class,
+parsing the serialisation (followed by anything) yields the transaction and leaves what followed -/
+theorem C07_tx_parse_ser (c : Coin) (tx : Tx) (hwf : tx.WF) (hne : 1 ≤ tx.ins.length) (rest : Bytes) :
+    ∃ b, tx.stream = .ok b ∧ Tx.parse c (b ++ rest) = .ok (tx, rest) := by
+  refine ⟨_, C07_ser_is_wire tx hwf, ?_⟩
+  have hne' : tx.ins ≠ [] := by
+    intro h; rw [h] at hne; simp at hne
+  rcases parse_cases c with h | h <;> rw [h]
+  · exact Tx.parseLtc_stream tx _ rest hwf.parseable.1 hwf.parseable.2 hne' (C07_ser_is_wire tx hwf)
+  · exact Tx.parseBtc_stream tx _ rest hwf.parseable.1 hwf.parseable.2 hne' (C07_ser_is_wire tx hwf)
+
+/-- the law in `PrefixLaw` form -/
+theorem tx_law (c : Coin) : PrefixLaw (fun tx : Tx => tx.stream) (Tx.parse c) (fun tx => tx.WF ∧ 1 ≤ tx.ins.length) := by
+  intro tx b rest ⟨hwf, hne⟩ h
+  obtain ⟨b', hb', hp⟩ := C07_tx_parse_ser c tx hwf hne rest
+  have h : tx.stream = .ok b := h
+  rw [h] at hb'
+  have := Except.ok.inj hb'
+  subst this
+  exact hp
+
+/-- bytes that are the wire encoding of some in-range transaction with at least one input -/
+def Canonical (b : Bytes) : Prop := ∃ tx : Tx, tx.WF ∧ 1 ≤ tx.ins.length ∧ b = Spec.Wire.ser tx
+
+/-- C07.reser_id: parsing canonical bytes consumes them all, and re-serialising the result returns them unchanged -/
+theorem C07_reser_id (c : Coin) (b : Bytes) (hc : Canonical b) (tx : Tx) (rest : Bytes)
+    (hp : Tx.parse c b = .ok (tx, rest)) : rest = [] ∧ tx.stream = .ok b := by
+  obtain ⟨tx', hwf, hne, rfl⟩ := hc
+  have h := tx_law c tx' _ [] ⟨hwf, hne⟩ (C07_ser_is_wire tx' hwf)
+  rw [List.append_nil, hp] at h
+  have h := Except.ok.inj h
+  injection h with h1 h2
+  subst h1 h2
+  exact ⟨rfl, C07_ser_is_wire tx hwf⟩
+
+/-- `ser` is injective: different transactions have different serialisations -/
+theorem ser_injective (a b : Tx) (ha : a.WF) (hb : b.WF) (ha1 : 1 ≤ a.ins.length) (hb1 : 1 ≤ b.ins.length)
+    (h : Spec.Wire.ser a = Spec.Wire.ser b) : a = b :=
+  (tx_law .btc).injective a b _ ⟨ha, ha1⟩ ⟨hb, hb1⟩ (C07_ser_is_wire a ha) (by rw [h]; exact C07_ser_is_wire b hb)
+
+/-! ## ids -/
+
+/-- C07.txid_def: the transaction id is the double SHA-256 of the witness-stripped (legacy) serialisation
+(single SHA-256 for the Groestlcoin class), shown reversed in hex -/
+theorem C07_txid_def (c : Coin) (tx : Tx) (hwf : tx.WF) :
+    Tx.hash c tx = .ok (Tx.idDigest c (Spec.Wire.legacy tx)) ∧
+    Tx.id c tx = .ok (Tx.b2hRev (Tx.idDigest c (Spec.Wire.legacy tx))) ∧
+    (c.singleSha = false → Tx.hash c tx = .ok (Spec.Wire.txid tx)) := by
+  have h : Tx.hash c tx = .ok (Tx.idDigest c (Spec.Wire.legacy tx)) := by
+    unfold Tx.hash
+    rw [stream_eq_spec tx hwf false]
+    simp [Except.map]
+  refine ⟨h, ?_, ?_⟩
+  · simp [Tx.id, h, Except.map]
+  · intro hs
+    rw [h]
+    simp [Tx.idDigest, hs, Spec.Wire.txid]
+
+/-- without witness data, `stream` does not look at the witness stacks -/
+theorem stream_nowit_strip (tx : Tx) : tx.stream false false = (Spec.Wire.stripWitness tx).stream false false := by
+  unfold Tx.stream Spec.Wire.stripWitness
+  simp only [Bool.false_and, List.length_map, Bool.false_eq_true, if_false]
+  have : streamList (fun t : TxIn => t.stream false) (tx.ins.map fun t => { t with witness := [] }) =
+      streamList (fun t : TxIn => t.stream false) tx.ins := by
+    rw [streamList_map]; rfl
+  rw [this]
+
+/-- C07.txid_witness_independent: transactions that differ only in witness data have the same id (all inputs,
+no range hypothesis) -/
+theorem C07_txid_witness_independent (c : Coin) (a b : Tx)
+    (h : Spec.Wire.stripWitness a = Spec.Wire.stripWitness b) : Tx.id c a = Tx.id c b := by
+  unfold Tx.id Tx.hash
+  rw [stream_nowit_strip a, stream_nowit_strip b, h]
+
+/-- C07.wtxid_covers_witness: the witness id is the digest of the full serialisation, and two different
+transactions — in particular two that differ only in witness data — are hashed from different byte strings
+(equal witness ids would be a SHA-256 collision) -/
+theorem C07_wtxid_covers_witness (c : Coin) (a b : Tx) (ha : a.WF) (hb : b.WF) (ha1 : 1 ≤ a.ins.length)
+    (hb1 : 1 ≤ b.ins.length) (hne : a ≠ b) :
+    Tx.wHash c a = .ok (Tx.idDigest c (Spec.Wire.ser a)) ∧ Tx.wHash c b = .ok (Tx.idDigest c (Spec.Wire.ser b)) ∧
+      Spec.Wire.ser a ≠ Spec.Wire.ser b := by
+  refine ⟨?_, ?_, fun h => hne (ser_injective a b ha hb ha1 hb1 h)⟩
+  · simp [Tx.wHash, asBin_eq_stream, C07_ser_is_wire a ha, Except.map]
+  · simp [Tx.wHash, asBin_eq_stream, C07_ser_is_wire b hb, Except.map]
+
+/-! ## non-vacuity -/
+
+def exIn : TxIn := ⟨List.replicate 32 0x11, 7, [0x51], 0xFFFFFFFE, [[], [1, 2], []]⟩
+def exTx : Tx := ⟨2, [exIn, { exIn with witness := [] }], [⟨18446744073709551615, [0x6a]⟩], 500000⟩
+
+#guard (exTx.stream matches .ok _)
+#guard (match exTx.stream with | .ok b => b == Spec.Wire.ser exTx | _ => false)
+#guard (match Tx.parse .btc (Spec.Wire.ser exTx ++ [9]) with | .ok (t, r) => t == exTx && r == [9] | _ => false)
+#guard (match Tx.parse .ltc (Spec.Wire.ser exTx ++ [9]) with | .ok (t, r) => t == exTx && r == [9] | _ => false)
+example : exTx.WF ∧ 1 ≤ exTx.ins.length := by
+  refine ⟨⟨by decide, by decide, by decide, by decide, ?_, ?_⟩, by decide⟩
+  · intro t ht
+    simp only [exTx, List.mem_cons, List.not_mem_nil, or_false] at ht
+    rcases ht with rfl | rfl <;>
+      exact ⟨by decide, by decide, by decide, by decide, by decide, by decide⟩
+  · intro o ho
+    simp only [exTx, List.mem_cons, List.not_mem_nil, or_false] at ho
+    subst ho
+    exact ⟨by decide, by decide⟩
 
 end Pycoin
